@@ -32,6 +32,13 @@ DEC_ASSUME = [
 ]
 
 
+def lowrate_run(variant, cb, dq, dt, nofinish):
+    """depth-bounded all-orders exploration of low-rate, small-k, large-N1 LDPC blocks (n up to 26)"""
+    a = ["--mode", "bfs", "--codecs", "lowrate", "--cb", cb, "--saslimit", "0"] + (["--nofinish", "1"] if nofinish else [])
+    return {"name": "bfs-lowrate-%s%s" % (variant, "-nofinish" if nofinish else ""), "src": "h_codec.c", "variant": variant, "args": a,
+            "args_quick": ["--maxdepth", str(dq)], "args_thorough": ["--maxdepth", str(dt)]}
+
+
 def dec_runs(variant, cb, codecs, modes, randdev_q=0, randdev_t=1, extra=None):
     runs = []
     for m in modes:
@@ -55,45 +62,45 @@ DEC_BOUNDS = {
 PROPS["C01"] = {
     "level": "model_checking", "rule": DEC_RULE, "bounds": DEC_BOUNDS, "assumptions": DEC_ASSUME,
     "claim": "every reachable state of the decoder explorer (all arrival orders, duplicates, both submission APIs, with/without FINISH, callback none/buffer) on the small grids, every received subset on the medium grids and the enumerated loss families on the large ones: each non-NULL source-table entry is byte-identical to the encoded symbol and completion implies all k entries; exhaustive within the stated bounds",
-    "runs": dec_runs("trk", "nb", "rs,ldpc", ["bfs", "subsets", "large"], 1, 2),
+    "runs": dec_runs("trk", "nb", "rs,ldpc", ["bfs", "subsets", "large", "lens"], 1, 2) + [lowrate_run("trk", "nb", 5, 6, False)],
 }
 PROPS["C02"] = {
     "level": "model_checking", "rule": DEC_RULE, "bounds": DEC_BOUNDS, "assumptions": DEC_ASSUME,
     "claim": "for both RS codecs: in every explored state, >=k distinct symbols submitted <=> decoding complete with the original symbols (after the k-th DWS, or after FINISH for SAS), <k => never complete and FINISH returns FAILURE; complete for m=4 (all (k,n), all 2^n subsets in thorough) and for all subsets/orders up to the stated n for m=8 and codec 1; generator matrices are pinned to the Vandermonde reference by C06",
-    "runs": dec_runs("trk", "nb", "rs", ["bfs", "subsets", "large"]),
+    "runs": dec_runs("trk", "nb", "rs", ["bfs", "subsets", "large", "lens"]),
 }
 PROPS["C03"] = {
     "level": "model_checking", "rule": DEC_RULE, "bounds": DEC_BOUNDS, "assumptions": DEC_ASSUME + ["H_ref comes from the independent RFC 5170 transcription; 'uniquely determined' <=> rank(H restricted to unknown columns) = number of unknown columns (staircase columns are independent)"],
     "claim": "FINISH from every reachable pre-finish state (all orders, both APIs) and for every received subset: complete-after-finish <=> rank condition on the reference matrix, for every explored rand() script (all r^r for r<=4, <=1/2 deviations otherwise)",
-    "runs": dec_runs("trk", "nb", "ldpc", ["bfs", "subsets", "large"], 1, 2),
+    "runs": dec_runs("trk", "nb", "ldpc", ["bfs", "subsets", "large", "lens"], 1, 2) + [lowrate_run("trk", "n", 5, 6, False)],
 }
 PROPS["C04"] = {
     "level": "model_checking", "rule": DEC_RULE, "bounds": DEC_BOUNDS, "assumptions": DEC_ASSUME + ["peeling closure computed on the independent RFC 5170 matrix"],
     "claim": "after every DWS step of every explored history (all orders with duplicates, every prefix) the set of available source symbols equals the source part of the peeling closure of the received set and completion <=> closure contains all sources",
-    "runs": dec_runs("trk", "nb", "ldpc", ["bfs", "subsets", "large"]),
+    "runs": dec_runs("trk", "nb", "ldpc", ["bfs", "subsets", "large", "lens"]) + [lowrate_run("trk", "n", 6, 7, True)],
 }
 PROPS["C07"] = {
     "level": "model_checking", "rule": DEC_RULE, "bounds": DEC_BOUNDS,
     "assumptions": DEC_ASSUME + ["AddressSanitizer build (-O1) of library and harness; symbol buffers are exact-size heap blocks ending at the end of their malloc block, pointer tables have exactly n resp. k entries", "blind spot: reads before a buffer start that stay inside the alignment padding (offsets 1..7)"],
     "claim": "the decoder explorations re-run under AddressSanitizer with exact-size application buffers and pristine-copy comparison after every call, plus symbol lengths 1..40,63,64,65 x alignments 0..7 and the parameter limits: no ASan report, no signal, no application buffer or table modified, in any explored state including release at every state",
-    "runs": dec_runs("asan", "nbNz", "rs,ldpc", ["bfs", "lens", "large"]) + dec_runs("trk", "nb", "rs,ldpc", ["lens"]),
+    "runs": dec_runs("asan", "nbNz", "rs,ldpc", ["bfs", "lens", "large"]) + dec_runs("trk", "nb", "rs,ldpc", ["lens"]) + [lowrate_run("asan", "nb", 5, 6, False)],
     "budget": {"quick": 900, "thorough": 7200},
 }
 PROPS["C08"] = {
     "level": "model_checking", "rule": DEC_RULE, "bounds": DEC_BOUNDS,
     "assumptions": DEC_ASSUME + ["malloc/calloc/realloc/free wrapped at link time (exact live-block table)", "ownership rule (DESIGN.md §5): the application frees every source-table pointer it did not supply; everything else live after release is a leak"],
     "claim": "every explored state is rebuilt and released: live-block set after release + application epilogue equals the set before create, no free of a non-live block, no free of application memory; covers unconfigured, configured, every prefix of every order, after successful and failed FINISH, all callback policies",
-    "runs": dec_runs("trk", "nbNz", "rs,ldpc", ["bfs", "subsets", "lens", "large"]),
+    "runs": dec_runs("trk", "nbNz", "rs,ldpc", ["bfs", "subsets", "lens", "large"]) + [lowrate_run("trk", "nb", 5, 6, False)],
 }
 PROPS["C10"] = {
     "level": "model_checking", "rule": DEC_RULE, "bounds": DEC_BOUNDS, "assumptions": DEC_ASSUME,
     "claim": "on every transition of the explored state spaces (no callbacks): DWS/SAS return OK; FINISH returns OK iff complete afterwards and FAILURE iff not, never another status; complete <=> the source table is available with k entries; completion is monotone; a source symbol submitted while unknown is reported with the very pointer supplied; includes FINISH from already-complete states",
-    "runs": dec_runs("trk", "n", "rs,ldpc", ["bfs", "subsets", "large"], 1, 1),
+    "runs": dec_runs("trk", "n", "rs,ldpc", ["bfs", "subsets", "large", "lens"], 1, 1) + [lowrate_run("trk", "n", 5, 6, False)],
 }
 PROPS["C11"] = {
     "level": "model_checking", "rule": DEC_RULE, "bounds": DEC_BOUNDS, "assumptions": DEC_ASSUME + ["callback policies are functions of the ESI fixed per exploration (buffer for all, NULL for all, NULL for every set Z with |Z|<=1 (quick) / <=2 (thorough), all 2^k sets for small k)"],
     "claim": "for every explored state and callback policy: exactly one call per decoded (not received) source symbol with ESI<k and size = symbol length, never for a received symbol; the decoded value is in the returned buffer, or in a library block when NULL was returned, and that buffer is what the source table reports; statuses as in C10",
-    "runs": dec_runs("trk", "bNz", "rs,ldpc", ["bfs", "lens"], 1, 1) + dec_runs("trk", "b", "rs,ldpc", ["subsets"]),
+    "runs": dec_runs("trk", "bNz", "rs,ldpc", ["bfs", "lens"], 1, 1) + dec_runs("trk", "b", "rs,ldpc", ["subsets"]) + [lowrate_run("trk", "bN", 5, 6, False)],
 }
 
 PROPS["C19"] = {
